@@ -36,3 +36,10 @@ func VerifServeOne(sh *SessionHandler, conn net.Conn, locked contracts.SignedRev
 	defer t.Close()
 	return sh.rpcLoop(&session{t: t, contract: locked}, sh.log)
 }
+
+// VerifUpgrade runs the host side of a whole RHP2 session on conn with the real
+// upgrade (handshake, then rpcLoop until the renter closes the connection), in
+// the calling goroutine so that the caller can recover a panic.
+func VerifUpgrade(sh *SessionHandler, conn net.Conn) error {
+	return sh.upgrade(conn)
+}
